@@ -32,7 +32,7 @@ class TlcResult:
 
 
 _PRINT_RE = re.compile(r'^<<"([A-Z_]+)", (.*)>>$')
-_COV_RE = re.compile(r'^<(\w+) line \d+, col \d+ to line \d+, col \d+ of module (\w+)>: (\d+):(\d+)')
+_COV_RE = re.compile(r'^<(\w+) line \d+, col \d+ to line \d+, col \d+ of module (\w+)(?: \([\d ]+\))?>: (\d+):(\d+)')
 
 
 def _decode_print(payload):
